@@ -10,3 +10,15 @@ package handshake
 //@ inline
 //@ ensures c12-fresh-buffer: fresh(result0)
 //@ end
+
+// C12: "a handshake message is surfaced only when the stored fragments add up to the message length": the
+// message length that the fragment buffer compares with is the full 24-bit length field of the fragment's
+// header (RFC 6347 4.2.2: uint24 length), and fragment_offset / fragment_length are the full 24-bit fields.
+// (The complete layout is in verif_contracts_c18.go; these clauses make the C12 check depend on it.)
+
+//@ func Header.Unmarshal
+//@ ensures c12-length-24bit: result == nil ==> h.Length>>16 == uint32(data[1]) && (h.Length>>8)&0xFF == uint32(data[2]) && h.Length&0xFF == uint32(data[3])
+//@ ensures c12-fragment-fields-24bit: result == nil ==> h.FragmentOffset>>16 == uint32(data[6]) && h.FragmentLength>>16 == uint32(data[9])
+//@     && h.FragmentOffset&0xFFFF == uint32(data[7])<<8 | uint32(data[8]) && h.FragmentLength&0xFFFF == uint32(data[10])<<8 | uint32(data[11])
+//@ ensures c12-sequence: result == nil ==> h.MessageSequence == uint16(data[4])<<8 | uint16(data[5])
+//@ end
